@@ -1081,6 +1081,11 @@ class Emitter:
                 s2.__dict__.update(s.__dict__)
                 s2.attrs = plain
                 s = s2
+        if s.kind == "let" and s.init is not None and s.els is not None:
+            # `let PAT = init else { diverges };  rest..`  is  `match init { PAT => { rest.. }, _ => { diverges } }`
+            body = N("block", stmts=list(stmts[i + 1:]), tail=tail)
+            m = N("match", scrut=s.init, arms=[(s.pat, None, body), (N("pwild"), None, s.els)], arm_attrs=[[], []])
+            return self.expr(m, env, k)
         if s.kind == "item":
             it = s.item
             if it.kind == "const":
@@ -2149,6 +2154,19 @@ class Emitter:
             # `opt.map(|x| body)` / `opt.and_then(|x| body)` with a one-parameter closure, when the vocabulary has no entry of
             # its own: the same thing as `match opt { Some(x) => Some(body), None => None }` (`and_then`: `=> body`) -- the
             # body may assign, panic or return like any match arm
+            if rty[0] == "opt" and name == "map_or" and len(e.args) == 2 and e.args[1].kind == "closure" and len(e.args[1].params) == 1:
+                # `opt.map_or(default, |x| body)` = `match opt { Some(x) => body, None => default }` (the default is an
+                # argument, evaluated first: accepted only when it is a literal / path / reference to one, i.e. effect-free)
+                dflt = e.args[0]
+                d0 = dflt
+                while d0.kind in ("ref", "unary", "index", "paren") and hasattr(d0, "e"):
+                    d0 = d0.e
+                if d0.kind not in ("path", "lit", "array", "int", "str", "bstr", "range"):
+                    raise EmitError("map_or: default argument %s is not a constant" % d0.kind)
+                cl = e.args[1]
+                m = N("match", scrut=recv, arms=[(N("ptstruct", segs=["Some"], elems=[cl.params[0][0]]), None, cl.body),
+                                                (N("ppath", segs=["None"]), None, dflt)], arm_attrs=[[], []])
+                return self.expr(m, env1, k)
             if rty[0] == "opt" and name in ("map", "and_then") and len(e.args) == 1 and e.args[0].kind == "closure" \
                     and len(e.args[0].params) == 1:
                 cl = e.args[0]
